@@ -193,14 +193,20 @@ def handleIx (args impl : List String) : String :=
   | [insA, insB], [a1, a2, b1, b2, res, dmm] =>
     match fls [a1, a2, b1, b2, dmm] with
     | some [a1, a2, b1, b2, dmm] =>
+      -- (an end point at a latitude of exactly ±45°: the geodesic library's octant slip, recorded
+      -- finding — labelled from the input alone)
+      let tag := match fls (args.take 8) with
+        | some [p1, _, p2, _, p3, _, p4, _] =>
+          if Float.abs p1 == 45.0 ∨ Float.abs p2 == 45.0 ∨ Float.abs p3 == 45.0 ∨ Float.abs p4 == 45.0 then " tag=geodesic-lat45" else ""
+        | _ => ""
       -- the extended intersection lies on both geodesics: azimuths equal or opposite
       let onA := angDiff a1 a2 ≤ 1e-6 ∨ Float.abs (angDiff a1 a2 - 180.0) ≤ 1e-6
       let onB := angDiff b1 b2 ≤ 1e-6 ∨ Float.abs (angDiff b1 b2 - 180.0) ≤ 1e-6
       let inside := insA == "1" ∧ insB == "1"
-      if !(onA ∧ onB) then s!"VIOL clause=ge.on_both a={angDiff a1 a2} b={angDiff b1 b2}"
-      else if dmm > 1.0 then s!"VIOL clause=ge.crossing_mm d={dmm}"
-      else if inside ∧ res != "ok" then "VIOL clause=ge.inside_ok"
-      else if !inside ∧ res != "err" then "VIOL clause=ge.outside_err"
+      if !(onA ∧ onB) then s!"VIOL clause=ge.on_both{tag} a={angDiff a1 a2} b={angDiff b1 b2}"
+      else if dmm > 1.0 then s!"VIOL clause=ge.crossing_mm{tag} d={dmm}"
+      else if inside ∧ res != "ok" then s!"VIOL clause=ge.inside_ok{tag}"
+      else if !inside ∧ res != "err" then s!"VIOL clause=ge.outside_err{tag}"
       else "OK nt=1"
     | _ => "BAD"
   | _, _ => "BAD"
